@@ -332,6 +332,17 @@ def runFrom (wf : Wf) (k : Option Nat) (sorted : List NodeId) : Step → List (L
 def runAsync (wf : Wf) (k : Option Nat) (sorted : List NodeId) (sched : List (List Ev)) : Step :=
   runFrom wf k sorted (start wf k sorted (fun _ => .idle)) sched
 
+/-- a whole submission of a workflow with the asynchronous loop: `exec_graph.sorted_nodes` first (`DiGraph.sorting`
+    raises ValueError on a cycle, D12 repaired), then the loop -/
+inductive Submission
+  | cycleError                 -- ValueError("Graph ... cannot be sorted as it contains a cycle")
+  | ran (s : Step)
+
+def submitAsync (wf : Wf) (k : Option Nat) (sched : List (List Ev)) : Submission :=
+  match sortFrom wf.g [] with
+  | none => .cycleError
+  | some sorted => .ran (runAsync wf k sorted sched)
+
 /-! ### the synchronous loop (`expand_workflow`, debug worker) -/
 
 inductive SyncOutcome
@@ -342,12 +353,12 @@ deriving DecidableEq, Repr
 
 /-- `for job in tasks: self.worker.run(job)`: `Job.run` returns a cached successful result, else executes the
     body; `ran` logs executed bodies -/
-def runTasks (fail : Ck → Bool) : St → List Job → Except Ck St
+def runTasks (fail : Ck → Bool) : St → List Job → Except (Ck × St) St
   | st, [] => .ok st
   | st, j :: js =>
     let c := ckOf st j
     if st.w c == .ok then runTasks fail st js
-    else if fail c then .error c
+    else if fail c then .error (c, st)      -- the bodies that ran before it in this batch stay executed
     else runTasks fail { st with w := setW st.w c .ok, futured := st.futured ++ [c] } js
 
 def syncLoop (wf : Wf) (k : Option Nat) (sorted : List NodeId) (fail : Ck → Bool) : Nat → St → SyncOutcome × St
@@ -360,7 +371,7 @@ def syncLoop (wf : Wf) (k : Option Nat) (sorted : List NodeId) (fail : Ck → Bo
         (a.1, { st with ns := a.2 })
     if !goOn.1 then (.success, goOn.2) else
     match runTasks fail goOn.2 goOn.2.tasks with
-    | .error c => (.raised c, { goOn.2 with w := setW goOn.2.w c .err })
+    | .error (c, st1) => (.raised c, { st1 with w := setW st1.w c .err })
     | .ok st1 => syncLoop wf k sorted fail fuel (doPoll wf k sorted st1)
 
 def runSync (wf : Wf) (k : Option Nat) (sorted : List NodeId) (fail : Ck → Bool) (fuel : Nat) : SyncOutcome × St :=
